@@ -19,11 +19,13 @@ TextOf(kind) ==
   CASE kind = "valid" -> Render(GValid, DefaultStyle)
     [] kind = "warned" -> Render(GWarned, DefaultStyle)
     [] kind = "syntax" -> Render(GValid, DefaultStyle) \o "Z <- ( 'a'\n"
+    \* the driver replaces the marker line by a comment line of 100 000 characters
+    [] kind = "validlong" -> Header(DefaultStyle) \o RenderRule(GValid.rules[1], DefaultStyle) \o "#@LONGLINE@\n" \o RenderRule(GValid.rules[2], DefaultStyle)
     [] OTHER -> ""
 
 \* a canonical order that does not depend on CHOOSE: enumerate the product explicitly
-SrcL == <<"file", "stdin", "dash", "missing", "directory">>
-TextL == <<"valid", "warned", "syntax", "empty">>
+SrcL == <<"file", "stdin", "dash", "missing", "directory", "fileopt", "file2">>
+TextL == <<"valid", "warned", "syntax", "empty", "validlong">>
 DestL == <<"default", "named", "stdout", "missingdir", "isdir", "devfull">>
 PreL == <<"absent", "longer">>
 OptL == <<"", "i", "s", "is", "n", "nis">>
